@@ -203,6 +203,23 @@ func (s *Service) Open() error {
 // Close closes the hinted handoff service.
 func (s *Service) Close() error {
 	s.Logger.Info("Shutting down hinted handoff service")
+	if err := s.close(); err != nil {
+		return err
+	}
+
+	// Wait without holding the lock: the purger takes it on every tick and
+	// would never get to see that the service is closing.
+	s.wg.Wait()
+
+	s.mu.Lock()
+	s.closing = nil
+	s.mu.Unlock()
+
+	return nil
+}
+
+// close closes the processors and signals the background goroutines to stop.
+func (s *Service) close() error {
 	s.mu.Lock()
 	defer s.mu.Unlock()
 
@@ -219,10 +236,13 @@ func (s *Service) Close() error {
 	}
 
 	if s.closing != nil {
-		close(s.closing)
+		select {
+		case <-s.closing:
+			// Already closed.
+		default:
+			close(s.closing)
+		}
 	}
-	s.wg.Wait()
-	s.closing = nil
 
 	return nil
 }
